@@ -471,3 +471,106 @@ def q_classes():
         return SmtResult(status="sat", detail=f"ignored characters {ignore!r}", queries=q, replay={"func": "vf.harness.lexreplay:replay_token_class", "args": {"w": "a\tb", "token": None}})
     return SmtResult(status="unsat", detail="every token class of the live lexer equals its reference class (unbounded length); literals and ignored characters as specified",
                      queries=q, solver_time_s=round(total, 3), samples=[{"classes": sorted(ref), "literals": sorted(literals), "ignore": ignore}])
+
+
+
+def _pumpable_member(r, length):
+    """A member of L(r) of exactly `length` characters, found without asking the solver for a long model: z3 supplies a short
+    member x; for its last character c the inclusion  x c*  subset of  L(r)  is decided as a regular-language query
+    (unsat of: y in x c*  and  y not in L(r), y of unbounded length); the member is x followed by copies of c.
+    Returns (member or None, number of queries (negative: no verdict), solver seconds)."""
+    t0 = time.time()
+    n = 0
+    x = z3.String("short")
+    status, sol, _ = _check([z3.InRe(x, r), z3.Length(x) >= 1, z3.Length(x) <= 3])
+    n += 1
+    if status != "sat":
+        return None, (n if status == "unsat" else -n), time.time() - t0
+    xs = sol.model().eval(x, model_completion=True).as_string()
+    for c in [xs[-1]] + list("0123456789"):
+        y = z3.String("long")
+        status, _, _ = _check([z3.InRe(y, z3.Concat(S(xs), z3.Star(S(c)))), z3.Not(z3.InRe(y, r))])
+        n += 1
+        if status == "unsat":
+            return xs + c * (length - len(xs)), n, time.time() - t0
+        if status != "sat":
+            return None, -n, time.time() - t0
+    return None, n, time.time() - t0
+
+def q_token_actions():
+    """C16: no token action of the lexer lets a non-JaqalError escape, for token texts of ANY length.
+
+    The actions of JaqalLexer (read from the live class) convert the matched text with int()/float().  Their
+    exception contracts are modelled from the CPython documentation:
+      int(s)          for s in [-+]?[0-9]+ : ValueError  <=>  number of digits > sys.get_int_max_str_digits() (if non-zero)
+      int(s, base=2)  no limit (power-of-two base)
+      float(s)        never raises on a string of the NUMBER language (overflow gives inf)
+    For every unprotected conversion (not inside a try whose handler catches ValueError / Exception and raises a
+    JaqalError) z3 is asked for a text of the token's language on which the contract says the conversion raises; the
+    model is replayed through parse_jaqal_string."""
+    import ast
+    import inspect
+    import sys
+    import textwrap
+    from jaqalpaq.parser.slyparse import JaqalLexer
+    try:
+        rules, literals, ignore, remap = _rules_re()
+    except Untranslatable as ex:
+        return SmtResult(status="unknown", detail=str(ex))
+    limit = sys.get_int_max_str_digits() if hasattr(sys, "get_int_max_str_digits") else 0
+    queries = 0
+    st = 0.0
+    samples = []
+    for name, pat, r in rules:
+        fn = JaqalLexer.__dict__.get(name)
+        if not callable(fn):
+            continue
+        tree = ast.parse(textwrap.dedent(inspect.getsource(fn)))
+        protected = set()
+        for node in ast.walk(tree):
+            if isinstance(node, ast.Try):
+                catches = any(h.type is None or any(k in ast.unparse(h.type) for k in ("ValueError", "Exception")) for h in node.handlers)
+                reraises = all(any(isinstance(x, ast.Raise) and x.exc is not None and "Jaqal" in ast.unparse(x.exc) for x in ast.walk(h)) or
+                               not any(isinstance(x, ast.Raise) for x in ast.walk(h)) for h in node.handlers)
+                if catches and reraises:
+                    for b in node.body:
+                        for x in ast.walk(b):
+                            protected.add(id(x))
+        for node in ast.walk(tree):
+            if not (isinstance(node, ast.Call) and isinstance(node.func, ast.Name) and node.func.id in ("int", "float")):
+                continue
+            if id(node) in protected:
+                samples.append({"token": name, "conversion": ast.unparse(node), "protected": True})
+                continue
+            if node.func.id == "float":
+                samples.append({"token": name, "conversion": ast.unparse(node), "contract": "float() of a NUMBER text never raises"})
+                continue
+            base = None
+            for kw in node.keywords:
+                if kw.arg == "base":
+                    base = ast.literal_eval(kw.value)
+            if len(node.args) > 1:
+                base = ast.literal_eval(node.args[1])
+            if base in (2, 4, 8, 16, 32) or not limit:
+                samples.append({"token": name, "conversion": ast.unparse(node), "contract": "no digit limit"})
+                continue
+            w, q_, dt = _pumpable_member(r, limit + 2)
+            queries += q_
+            st += dt
+            if w is not None:
+                return SmtResult(status="sat", detail=f"token {name}: {ast.unparse(node)} is unprotected and raises ValueError on a text of {len(w)} characters "
+                                 f"(more than {limit} digits)", queries=queries, solver_time_s=round(st, 3),
+                                 replay={"func": "vf.harness.lexreplay:replay_token_action", "args": {"w": w, "token": name}})
+            if w is None and q_ < 0:
+                return SmtResult(status="unknown", detail=f"token {name}: solver gave no verdict", queries=queries, solver_time_s=round(st, 3))
+            samples.append({"token": name, "conversion": ast.unparse(node), "answer": "no text of the token language exceeds the digit limit"})
+    # vacuity: the INT language does contain texts longer than the limit (the guard, not the language, is what protects)
+    intr = [r for n, p, r in rules if n == "INT"]
+    vac = True
+    if intr and limit:
+        w, q_, dt = _pumpable_member(intr[0], limit + 2)
+        queries += abs(q_)
+        st += dt
+        vac = w is not None
+    return SmtResult(status="unsat", detail="every int()/float() conversion in a token action is either total on its token language or guarded by a handler raising a JaqalError",
+                     queries=queries, solver_time_s=round(st, 3), samples=samples, vacuity_ok=vac, extra={"int_max_str_digits": limit})
